@@ -272,6 +272,14 @@ def _problem(case):
         w = 0.2 + rs.rand(k)
         base = w @ (basis - np.mean(basis, axis=1, keepdims=True))
         train = np.array([-base + 0.05 * np.std(base) * rs.randn(nd_all) for _ in range(r)])
+    elif kind == 'correlated':
+        # strongly correlated basis RDMs and a signed mixture as target: the unconstrained optimum has negative weights, so the
+        # non-negative solvers have to take weights OUT of their active set on the way
+        common = 0.5 + rs.rand(nd_all)
+        basis = np.array([common + 0.25 * rs.rand(nd_all) for _ in range(k)])
+        w = np.array([1.0, -0.9, 0.7, -0.4, 0.5, -0.3][:k])
+        base = w @ basis + 1.5 * common
+        train = np.array([base + 0.05 * np.std(base) * rs.randn(nd_all) for _ in range(r)])
     elif kind == 'posmix':
         w = 0.2 + rs.rand(k)
         base = w @ basis
@@ -1381,6 +1389,19 @@ def tier_c(run, thorough):
                     case = dict(seed=9500 + seed, k=(2, 3)[seed % 2], n_all=(5, 6)[seed % 2], pidx=None, desc='index', kind='negaligned',
                                 method=method, n_train=(1, 3)[seed % 2], sigma='none', via='direct')
                     bd.check(orc, case, 'sigma_k-none,negatively-aligned-training-data', function=fit_name)
+        if fit_name in ('fit_regress_nn', 'fit_optimize_positive', 'fit_regress'):
+            # correlated basis RDMs, 4 regressors, all four criteria with and without sigma_k
+            for seed in range((8 if thorough else 4) if fit_name != 'fit_optimize_positive' else (3 if thorough else 1)):
+                for method in (METHODS if fit_name != 'fit_optimize_positive' or thorough else ('cosine',)):
+                    for sig in ('none', 'full'):
+                        if sig == 'full' and method in ('cosine', 'corr'):
+                            continue
+                        case = dict(seed=9700 + seed, k=4, n_all=6, pidx=None, desc='index', kind='correlated', method=method,
+                                    n_train=(1, 3)[seed % 2], sigma=sig, via='direct')
+                        # (fit_optimize_positive with a sigma_k given: the open non-convergence finding F4 -- its own classes)
+                        ic = _sigma_class(case) if (fit_name == 'fit_optimize_positive' and sig != 'none') else \
+                            f'sigma_k-{"given" if sig != "none" else "none"},correlated-basis'
+                        bd.check(orc, case, ic, function=fit_name)
         if fit_name == 'fit_optimize':
             # the default fitter of ModelWeighted, called through Model.fit
             for seed in range(2 if thorough else 1):
